@@ -146,6 +146,20 @@ func csRandomRune(rng *fw.Rand, e *csEntry) rune {
 		}
 	default: // legacy double byte: ASCII or a random double-byte code that round-trips
 		for tries := 0; tries < 200; tries++ {
+			if e.Name == "GB18030" && rng.Intn(5) == 0 {
+				// GB 18030 covers all of Unicode: characters outside the double-byte area take four bytes
+				r := rune(0x80 + rng.Intn(0xFF80))
+				if rng.Intn(3) == 0 {
+					r = rune(0x10000 + rng.Intn(0x100000))
+				}
+				if r >= 0xD800 && r < 0xE000 {
+					continue
+				}
+				if back, ok := e.csEncode(string(r)); ok && len(back) == 4 {
+					return r
+				}
+				continue
+			}
 			if rng.Intn(4) == 0 {
 				r := rune(0x20 + rng.Intn(0x5F))
 				if _, ok := e.csEncode(string(r)); ok {
